@@ -135,8 +135,7 @@ def opsItext (op : String) (j : Json) : Option (Except String Json) :=
         pure (Json.mkObj [("outcome", "ok"), ("translations", Json.arr (o.translations.map trToJson).toArray),
           ("bodyRefs", strsToJson o.bodyRefs), ("bindRefs", strsToJson o.bindRefs), ("itemIds", strsToJson o.itemIds),
           ("holds", holdsToJson (obsOf x.defaultLanguage o)),
-          ("guard", Json.mkObj [("wf", Json.bool (wf x)), ("choicesLabeled", Json.bool (choicesLabeled x)),
-            ("tagsPlain", Json.bool (tagsPlain x))])])
+          ("guard", Json.mkObj [("wf", Json.bool (wf x)), ("choicesLabeled", Json.bool (choicesLabeled x))])])
   | "itext.holds" => some do
       let ts ← (← getArr j "translations").toList.mapM trOfJson
       let refs ← getStrList j "refs"
